@@ -21,14 +21,18 @@ import (
 )
 
 type retroGraph struct {
-	cfg      tak.Config
-	index    map[string]int32
-	succOff  []int32 // CSR: successors of v are succ[succOff[v]:succOff[v+1]]
-	succ     []int32
-	term     []int8     // 0 not finished, 1 White won, 2 Black won, 3 draw
-	white    []bool     // White to move
-	dist     [2][]int32 // [0]: attacker White, [1]: attacker Black
-	edges    int
+	cfg     tak.Config
+	index   map[string]int32
+	succOff []int32 // CSR: successors of v are succ[succOff[v]:succOff[v+1]]
+	succ    []int32
+	term    []int8     // 0 not finished, 1 White won, 2 Black won, 3 draw
+	white   []bool     // White to move
+	dist    [2][]int32 // [0]: attacker White, [1]: attacker Black
+	edges   int
+	// ends[a][v]: against attacker a the defender can force the game to END without an attacker win (a lost
+	// or drawn finished position).  Positions with dist < 0 and !ends are the cyclic region: neither side can
+	// force the end, the attacker can only shuffle - there the repetition rule decides what a solver says.
+	ends     [2][]bool
 	sample   []*tak.Position // every sampleEvery-th unfinished position in breadth-first order (0: none)
 	finished []*tak.Position // likewise for finished positions
 }
@@ -178,6 +182,53 @@ func (g *retroGraph) solve(a int) {
 		open = rest
 	}
 	g.dist[a] = d
+
+	e := make([]bool, n)
+	open = open[:0]
+	for v := 0; v < n; v++ {
+		switch {
+		case g.term[v] != 0 && g.term[v] != int8(a+1):
+			e[v] = true
+		case g.term[v] == 0:
+			open = append(open, int32(v))
+		}
+	}
+	for {
+		var rest, solved []int32
+		for _, v := range open {
+			ss := g.succ[g.succOff[v]:g.succOff[v+1]]
+			ok := false
+			if g.white[v] != attWhite { // defender to move: some successor already forced
+				for _, s := range ss {
+					if e[s] {
+						ok = true
+						break
+					}
+				}
+			} else {
+				ok = len(ss) > 0
+				for _, s := range ss {
+					if !e[s] {
+						ok = false
+						break
+					}
+				}
+			}
+			if ok {
+				solved = append(solved, v)
+			} else {
+				rest = append(rest, v)
+			}
+		}
+		if len(solved) == 0 {
+			break
+		}
+		for _, v := range solved {
+			e[v] = true
+		}
+		open = rest
+	}
+	g.ends[a] = e
 }
 
 // lookup returns the node of p, or -1 when p is not part of the graph.
@@ -253,4 +304,66 @@ func forcedWin(p *tak.Position, who tak.Color, depth int, budget *int) (win bool
 		}
 	}
 	return any, true
+}
+
+// cyclicRoots walks the graph again from root and returns the positions of the cyclic region (for either
+// attacker) and, after them, positions up to two moves before it; at most max of each kind.
+func (g *retroGraph) cyclicRoots(root *tak.Position, max int) (cyclic, near []*tak.Position) {
+	n := len(g.term)
+	mark := make([]int8, n) // 1 cyclic, 2 one move before, 3 two moves before
+	any := false
+	for v := 0; v < n; v++ {
+		if g.term[v] == 0 && ((g.dist[0][v] < 0 && !g.ends[0][v]) || (g.dist[1][v] < 0 && !g.ends[1][v])) {
+			mark[v] = 1
+			any = true
+		}
+	}
+	if !any {
+		return nil, nil
+	}
+	for level := int8(2); level <= 3; level++ {
+		for v := 0; v < n; v++ {
+			if mark[v] != 0 {
+				continue
+			}
+			for _, s := range g.succ[g.succOff[v]:g.succOff[v+1]] {
+				if mark[s] == level-1 {
+					mark[v] = level
+					break
+				}
+			}
+		}
+	}
+	seen := make([]bool, n)
+	seen[0] = true
+	queue := []*tak.Position{root}
+	ids := []int32{0}
+	var buf [256]tak.Move
+	for head := 0; head < len(queue); head++ {
+		p, v := queue[head], ids[head]
+		queue[head] = nil
+		switch {
+		case mark[v] == 1 && len(cyclic) < max:
+			cyclic = append(cyclic, p)
+		case mark[v] > 1 && len(near) < max:
+			near = append(near, p)
+		}
+		if g.term[v] != 0 {
+			continue
+		}
+		for _, m := range p.AllMoves(buf[:0]) {
+			q, err := p.Move(m)
+			if err != nil {
+				continue
+			}
+			id := g.lookup(q)
+			if id < 0 || seen[id] {
+				continue
+			}
+			seen[id] = true
+			queue = append(queue, q)
+			ids = append(ids, id)
+		}
+	}
+	return cyclic, near
 }
